@@ -30,8 +30,8 @@ class C05(Check):
         "the header, as RFC 3597 generic form with both header spellings and through ToRFC3597; the text must consist "
         "of printable ASCII and TAB and be tokenised by an independent RFC 1035 reader (no comment, parenthesis, "
         "unbalanced quote) whose header columns decode to the record's header; the record re-read from text must "
-        "itself print re-readably; a variant of the struct holding raw instead of escaped strings must behave the "
-        "same. All 65536 type and class codes: TYPEnnn, CLASSnnn (both letter cases), mnemonic and Type.String/"
+        "itself print re-readably (a variant of the struct holding raw instead of escaped strings is tried too but "
+        "only counted: it comes neither from the wire nor from text). All 65536 type and class codes: TYPEnnn, CLASSnnn (both letter cases), mnemonic and Type.String/"
         "Class.String must be read as that code, out-of-range and malformed numbers refused. Records without RDATA, "
         "unregistered types, and an independent reader decoding the quoted strings of TXT-like types. Model cases: "
         "escaping functions on all 256 octets raw and escaped, bounded-exhaustive short strings over the escape "
